@@ -101,17 +101,26 @@ Out(s, a) ==
 \* ---- cones: which observables C29 constrains on a step ----
 \* Reading of the statement (weaker one where it is silent): C29 speaks about (a) pool requests on a NEW connection
 \* (token check, answer, cookies, whether it stays open and why) and (b) a plain key exchange on a KEPT-OPEN
-\* connection.  What a kept-open connection does with further pool requests, and plain key exchanges on new
-\* connections (C28), are modelled and compared but are not attributed to C29.
-ConeKey(s, a) == IF a.t = "Close" THEN <<"keptOpen", "Close">> ELSE <<s.conns[a.c].phase, Parsed(a)>>
+\* connection, and (c) that a kept-open connection is closed after a served pool request without KeepAlive.  What else
+\* a kept-open connection does with further pool requests, and plain key exchanges on new connections (C28), are
+\* modelled and compared but are not attributed to C29.
+\* "PoolNoKa": a served pool request on a kept-open connection that does not ask to keep it open any longer
+ConeKey(s, a) == IF a.t = "Close" THEN <<"keptOpen", "Close">>
+                 ELSE IF s.conns[a.c].phase = "keptOpen" /\ Parsed(a) \in {"FixedKey", "Support"} /\ ~a.ka
+                   THEN <<"keptOpen", "PoolNoKa">>
+                 ELSE <<s.conns[a.c].phase, Parsed(a)>>
 ConeKeys == ({"new", "keptOpen"} \X {"Invalid", "UnrecognizedCritical", "KeyExchange", "FixedKey", "Support"})
-            \cup {<<"keptOpen", "Close">>}
+            \cup {<<"keptOpen", "Close">>, <<"keptOpen", "PoolNoKa">>}
 ConeKeyStr(k) == k[1] \o ":" \o k[2]
 ConesOf(k) ==
   [C29 |-> IF k[1] = "new" /\ k[2] \in {"FixedKey", "Support", "Invalid"}
              THEN {"phase", "free", "out.resp", "out.code", "out.cookies", "out.ka", "out.open", "out.handle", "panic"}
            ELSE IF k[1] = "keptOpen" /\ k[2] = "KeyExchange"
              THEN {"phase", "out.resp", "out.code", "out.cookies", "out.open", "panic"}
+           \* "kept open for further requests only if the client asked for it": read per request - a kept-open
+           \* connection does not outlive a served request that no longer asks for it
+           ELSE IF k[1] = "keptOpen" /\ k[2] = "PoolNoKa"
+             THEN {"phase", "free", "out.open", "panic"}
            ELSE {}]
 Cones(s, a) == ConesOf(ConeKey(s, a))
 ConeTable == [k \in {ConeKeyStr(x) : x \in ConeKeys} |-> ConesOf(CHOOSE x \in ConeKeys : ConeKeyStr(x) = k)]
@@ -137,6 +146,7 @@ C29_Step(s, a) ==
             /\ o.open = (q.phase = "keptOpen") /\ o.ka = o.open /\ (o.handle = "some") = o.open
             /\ Post(s, a).free = s.free - (IF o.open THEN 1 ELSE 0)
        /\ (c.phase = "keptOpen" /\ a.kind = "ke") => refused
+       /\ (c.phase = "keptOpen" /\ pool /\ ~a.ka) => (q.phase = "closed" /\ ~o.open /\ Post(s, a).free = s.free + 1)
 
 \* a long-lived slot is held exactly by the kept-open connections
 C29_Permits(s) == s.free >= 0 /\ s.free + KeptOpen(s) = s.permits
